@@ -12,6 +12,7 @@ import (
 
 // Item is one element of a function's assumption stream.
 type Item struct {
+	Scope int // >0: emitted inside a scoped region (the body of an expanded iterator callback)
 	Decl  bool
 	Name  string
 	Sort  string
@@ -44,6 +45,8 @@ type Obligation struct {
 	DropRes  []string        // DropRes[i]: result when Hyps[i] is left out (is finding i still needed?)
 	Splits   []*Term         // case split applied when the unsplit query is not decided quickly
 	NSplit   int             // number of split cases actually solved
+	ClosedScopes map[int]bool // scoped regions already finished when the obligation was created (their assumptions are irrelevant)
+	UnfoldDepth int          // reduced unfolding depth (when the script got too large), -1: default
 }
 
 // Enc accumulates the verification conditions of one function under contract.
@@ -58,6 +61,9 @@ type Enc struct {
 	nobl  map[string]int
 	unsupported []string
 	epochs int
+	curScope int
+	nScopes  int
+	closed   map[int]bool
 	inputs []inputVar // model-relevant inputs (for replay / reporting)
 	splits []*Term    // case-split conditions (entry state) for heavy obligations
 }
@@ -78,7 +84,7 @@ func (enc *Enc) unsup(format string, a ...any) {
 func (enc *Enc) declare(prefix, sortName string) *Term {
 	n := enc.w.fresh()
 	name := fmt.Sprintf("%s_%d", mangle(prefix), n)
-	enc.items = append(enc.items, Item{Decl: true, Name: name, Sort: sortName})
+	enc.items = append(enc.items, Item{Decl: true, Name: name, Sort: sortName, Scope: enc.curScope})
 	return Leaf(name)
 }
 
@@ -100,7 +106,7 @@ func (enc *Enc) assume(t *Term, note string) {
 		}
 		return
 	}
-	enc.items = append(enc.items, Item{T: t, Note: note})
+	enc.items = append(enc.items, Item{T: t, Note: note, Scope: enc.curScope})
 }
 
 // define introduces a named constant equal to t (keeps terms small).
@@ -118,10 +124,16 @@ func (enc *Enc) oblige(kind, where, clause string, tags []string, pc, goal *Term
 	o := &Obligation{
 		Name:   fmt.Sprintf("%s:%s#%d", enc.name, kind, enc.nobl[kind]),
 		Func:   enc.name, Kind: kind, Tags: tags, Where: where, Clause: clause,
-		NItems: len(enc.items), Goal: Implies(pc, goal), enc: enc,
+		NItems: len(enc.items), Goal: Implies(pc, goal), enc: enc, UnfoldDepth: -1,
 	}
 	if strings.HasPrefix(kind, "ensures") || strings.HasPrefix(kind, "loop") {
 		o.Splits = enc.splits
+	}
+	if len(enc.closed) > 0 {
+		o.ClosedScopes = make(map[int]bool, len(enc.closed))
+		for k := range enc.closed {
+			o.ClosedScopes[k] = true
+		}
 	}
 	enc.obls = append(enc.obls, o)
 	return o
